@@ -56,12 +56,12 @@ Proof.
                     q = mkP (p_idx q) (e_kind e0) (e_line e0) (e_fid e0) /\ ok_attrs c e0).
     { intros q Hq. specialize (IH (S i) st' (fun x Hx => SUB x (or_intror Hx)) INV' q).
       rewrite R in IH. specialize (IH Hq). destruct IH as (e0 & N & LE & EQ & OK).
-      exists e0. repeat split; auto; try lia.
+      exists e0. split; [| split; [lia | split; [exact EQ | exact OK]]].
       replace (p_idx q - i)%nat with (S (p_idx q - S i))%nat by lia. exact N. }
     destruct op as [p0|]; [| apply TAIL; exact HP].
     destruct HP as [HP | HP]; [| apply TAIL; exact HP].
     subst p0. destruct (F1 p eq_refl) as [EQ K]. exists e. rewrite EQ. simpl.
-    replace (i - i)%nat with 0%nat by lia. repeat split; auto.
+    replace (i - i)%nat with 0%nat by lia. split; [reflexivity|]. split; [lia|]. split; [reflexivity|].
     destruct (e_kind e).
     + apply rejected_false_attrs in K. exact K.
     + eapply INV; eauto.
